@@ -511,7 +511,10 @@ REJECT_KINDS = ("service", "method", "interface_version", "message_type", "retur
 
 def run_scenario(seed, script, collect):
     rng = random.Random(seed)
-    h = Harness(rng, draw_mode="rand", max_iterations=400000)
+    import zlib
+
+    # both twins of a pair run with the same log level (the level alternates between pairs)
+    h = Harness(rng, draw_mode="rand", max_iterations=400000, debug_log=zlib.crc32(str(seed).encode()) % 2 == 0)
     prot, tr, cb = build_put(h, collect)
     escaped = []
 
